@@ -166,7 +166,7 @@ pub fn run(t: &[&str]) -> String {
             text.extend_from_slice(b"//# sourceMappingURL=");
             text.extend_from_slice(url.as_bytes());
             text.extend_from_slice(&post);
-            let emb = match locate_sourcemap_reference_slice(&text) {
+            let emb_modern = match locate_sourcemap_reference_slice(&text) {
                 Ok(Some(r @ SourceMapRef::Ref(_))) => {
                     r.get_url() == url
                         && match r.get_embedded_sourcemap() {
@@ -176,6 +176,22 @@ pub fn run(t: &[&str]) -> String {
                 }
                 _ => false,
             };
+            // … and in the legacy `//@` comment form: found, flagged legacy, and embedded all the same
+            let mut text2 = pre.clone();
+            text2.extend_from_slice(b"//@ sourceMappingURL=");
+            text2.extend_from_slice(url.as_bytes());
+            text2.extend_from_slice(&post);
+            let emb_legacy = match locate_sourcemap_reference_slice(&text2) {
+                Ok(Some(r @ SourceMapRef::LegacyRef(_))) => {
+                    r.get_url() == url
+                        && match r.get_embedded_sourcemap() {
+                            Ok(Some(dm)) => same_map(&dm, &sm, &enc),
+                            _ => false,
+                        }
+                }
+                _ => false,
+            };
+            let emb = emb_modern && emb_legacy;
             format!("ok {} {} rt={} emb={}", to_hex(&enc), to_hex(url.as_bytes()), rt as u8, emb as u8)
         }
         // det.decode <url-hex> <payload-hex | x>
